@@ -26,6 +26,16 @@ CHECKS = {
    "Kernels: filter (+optimized, sliced predicate), take (4 index types, nulls with out-of-range payload, duplicates, check_bounds), nullif, zip, slice, shift, concat, interleave, dictionary gc and the record-batch forms, for 62 types x all columns (len <= 3) x all layouts (<= 1 deviation) x every mask in {T,F,null}^n / every index vector of length <= 2 / every interleave list of length <= 2; structured filter families crossing the 0.8-selectivity, len/16 and 64-bit-word thresholds up to 1025 rows. Coalescer: BFS to depth 4 (6 thorough) over 32 operations for 5 schemas x target sizes {1,2,3,5} x bypass limit {None,2,4}; every transition runs on the real coalescer and is compared with the model (buffered rows, completed queue, emitted batches, exact batch sizes, final drain).",
    "Trusted: the ten-line reference implementations on Vec<Val>. Union columns are excluded from null-index / shift / nullif (no validity of their own). With a bypass limit only the row sequence is checked, as the property states.",
    "DESIGN.md section 4, C03"),
+ "C06": ("vk-pqread", "exploration",
+   "bounded exhaustive enumeration of reader option points (deviation-bounded product with a fully multiplied selection x offset x limit core) over generated Parquet files against a reference computed on rows; exhaustive RowSelection algebra against sets of positions",
+   "36 in-memory files (6 schemas incl. nested x 6 physical layouts: 1/3 unequal row groups, 1-3 rows per page, offset index on/off, dictionary on/off, v1/v2 pages; unique row ids) read under every configuration within 2 deviations of default (projection subsets, row-group lists incl. non-ascending, batch size, selection policy, page index, 9 predicate chains incl. predicate-only columns and null results, cache size 0) crossed with all 2^T row selections x 5 presentations x 6 offsets x 5 limits (reduced at 2 deviations); result rows, schema, batch bounds and validate_full compared with row-group choice -> selection -> predicates -> offset -> limit -> projection on Vec<row>. Algebra: all 127 selections over length <= 6 x 6 presentations, all ordered pairs: and_then, intersection, union, split_off(k), from_filters, from_consecutive_ranges, counts, iter, ==, scan_ranges against every page layout of <= 4 pages.",
+   "Trusted: the reference pipeline on Vec<row> and ArrowWriter as the file generator (its output is compared once with the written data). Files of 8-10 rows; 3 simultaneous deviations are outside.",
+   "DESIGN.md section 4, C06; engine/vk-pqread/STATUS.md"),
+ "C15": ("vk-pqread", "model_checking",
+   "stateless depth-first exploration of environment answers (I/O schedules) of the real push decoder and async stream with a deviation bound, every trace executed on the implementation and compared with the synchronous reader",
+   "Push decoder (3 API modes): before each call 8 alternative environment actions (early pushes of whole file / row groups, into_builder rebuilds at row-group boundaries, clear_all_ranges, API switch) and 14 answers to each NeedsData (exact, permuted, one-by-one, duplicated, strict subsets, +-1 byte, enclosing range, whole row group, whole file, next row group early); async stream over a hand-written AsyncFileReader and executor (per-range/vectored, metadata up front/fetched, poll_next/next_row_group, spurious polls; every subset of futures pending once up to the bound). Bound 2 deviations quick, 3-4 thorough, over 36 files x 12-15 option points plus option sweeps. Oracle: rows equal the sync reader's, requested ranges non-empty and inside the file, progress after exact answers, re-request after subset answers, buffered_bytes accounting, Finished sticky, no lost wake-ups.",
+   "Trusted: the synchronous reader as the row oracle (tied to the reference model by C06). Futures pend at most once; into_builder rebuilds keep projection and filter.",
+   "DESIGN.md section 4, C15; engine/vk-pqread/STATUS.md"),
  "C09": ("vk-compute", "exploration",
    "bounded exhaustive enumeration of single mutilations of valid ArrayData against validating constructors, acceptance checked by an independent validator written from the Arrow format specification",
    "For 62 types x all columns (len <= 2) x layouts (<= 1 deviation): every mutilation of a type-agnostic menu (len/offset +-1 and overflowing, buffer dropped/added/truncated by a byte or an element/misaligned, validity short/forbidden/wrong null_count, child dropped/added/retyped/shortened/lengthened, every cell of every offsets/sizes/keys/type-id/view/value buffer of the array and its children overwritten by each of 8 replacement values) is fed to ArrayData::try_new, ArrayDataBuilder::build (with and without align_buffers) and new_unchecked+validate_full; whatever is accepted must pass vmodel::spec_validate; RecordBatch::try_new(_with_options) trials.",
